@@ -158,10 +158,14 @@ func runC07(c *Ctx) {
 	}
 	// the enumeration part: every item is the first item of some run
 	items[0] = c07Items[(int(c.Run)/len(variants))%len(c07Items)]
-	position := []string{"before", "instead", "after"}[t.Draw(3)]
+	// "silent": the garbage is all the affected call ever gets - its stream (or the shared stream)
+	// stays open and says nothing more; the call is still pending when the others run and when the
+	// client is closed
+	position := []string{"before", "instead", "after", "silent"}[t.Draw(4)]
 	c.SetPlan("variant", variant)
 	c.SetPlan("garbage", items)
 	c.SetPlan("position", position)
+	s.Net.NoWriterContract = true // the server is a harness script
 	s.Net.Faults = sim.NetFaults{ShortRead: t.Pick(0, 20)}
 	affected := "A-" + c.Nonce("n")
 
@@ -219,6 +223,11 @@ func runC07(c *Ctx) {
 							fl.Flush()
 						}
 					}
+					if isAffected && position == "silent" {
+						emit()
+						<-r.Context().Done()
+						return
+					}
 					if isAffected && position == "before" {
 						emit()
 					}
@@ -237,6 +246,10 @@ func runC07(c *Ctx) {
 				if variant == "streamable-json" && isAffected {
 					w.WriteHeader(200)
 					switch position {
+					case "silent":
+						io.WriteString(w, c07JSON(items[0]))
+						w.(http.Flusher).Flush()
+						<-r.Context().Done()
 					case "before":
 						io.WriteString(w, c07JSON(items[0])+"\n")
 						w.Write(ans)
@@ -311,7 +324,7 @@ func runC07(c *Ctx) {
 			if isAffected && position == "before" {
 				emit()
 			}
-			if isAffected && position == "instead" {
+			if isAffected && (position == "instead" || position == "silent") {
 				emit()
 			} else {
 				fmt.Fprintf(sw, "event: message\ndata: %s\n\n", mustJSON(answerFor(id, method, params)))
@@ -374,7 +387,7 @@ func runC07(c *Ctx) {
 				if isAffected && position == "before" {
 					emit()
 				}
-				if isAffected && position == "instead" {
+				if isAffected && (position == "instead" || position == "silent") {
 					emit()
 				} else {
 					out.Write(append(mustJSON(answerFor(id, method, params)), '\n'))
@@ -417,8 +430,35 @@ func runC07(c *Ctx) {
 	var pendGot string
 	pendNonce := c.Nonce("P")
 	pend := s.Go("pending-call", func() { pendGot, pendErr = call(pendNonce, 2*time.Minute) })
-	// the affected call
-	aGot, aErr := call(affected, 2*time.Minute)
+	// the affected call (in "silent" runs it stays pending on its own task until the end)
+	var aGot string
+	var aErr error
+	var aTask *sim.Task
+	if position == "silent" {
+		aTask = s.Go("affected-call", func() { aGot, aErr = call(affected, 20*time.Minute) })
+		s.Settle(20 * time.Millisecond)
+		// registration changes by another goroutine of the application must not hang behind the
+		// stream that never finishes
+		regDone := false
+		reg := s.Go("registrar", func() {
+			h := func(n *mcp.JSONRPCNotification) error { return nil }
+			switch x := cl.(type) {
+			case *mcp.Client:
+				x.RegisterNotificationHandler("notifications/other", h)
+				x.UnregisterNotificationHandler("notifications/other")
+			case *mcp.StdioClient:
+				x.RegisterNotificationHandler("notifications/other", h)
+				x.UnregisterNotificationHandler("notifications/other")
+			}
+			regDone = true
+		})
+		s.WaitTasks(time.Minute, reg)
+		if !regDone {
+			s.Violate("C07|registration-blocked|"+variant, "RegisterNotificationHandler did not return while a call sits on a stream that got %v and then nothing", items)
+		}
+	} else {
+		aGot, aErr = call(affected, 2*time.Minute)
+	}
 	lenientID := false
 	for _, it := range items {
 		if it == "id-string-for-int" {
@@ -427,10 +467,12 @@ func runC07(c *Ctx) {
 			lenientID = true
 		}
 	}
-	if aErr == nil && aGot != "r:"+affected && !(lenientID && aGot == "r:stolen") {
+	if aTask == nil && aErr == nil && aGot != "r:"+affected && !(lenientID && aGot == "r:stolen") {
 		s.Violate("C07|affected-call-wrong-result|"+variant, "with server output %v %s its answer, the call returned %q instead of an error or its own result", items, position, short(aGot))
 	}
-	if aErr != nil {
+	if aTask != nil {
+		s.Probe("c07.affected_pending")
+	} else if aErr != nil {
 		s.Probe("c07.affected_error")
 	} else {
 		s.Probe("c07.affected_ok")
@@ -482,7 +524,15 @@ func runC07(c *Ctx) {
 	closer := s.Go("closer", func() { cl.Close(); closed = true })
 	s.WaitTasks(10*time.Minute, closer)
 	if !closed {
-		s.Violate("C07|close-blocked|"+variant, "Close did not return")
+		s.Violate("C07|close-blocked|"+variant, "Close did not return (position %s)", position)
+	}
+	if aTask != nil {
+		s.WaitTasks(25*time.Minute, aTask)
+		if !s.TaskExited(aTask) {
+			s.Violate("C07|affected-call-stuck|"+variant, "the call whose stream got %v and then nothing never returned, not even after Close and its own deadline", items)
+		} else if aErr == nil && aGot != "r:"+affected && !(lenientID && aGot == "r:stolen") {
+			s.Violate("C07|affected-call-wrong-result|"+variant, "the call whose stream got %v and then nothing returned %q", items, short(aGot))
+		}
 	}
 	s.Probe("c07.variant." + variant)
 }
